@@ -10,7 +10,7 @@ ALL = ['C%02d' % i for i in range(1, 21)]
 
 
 def notes_for(prop, variant):
-    p = '/tmp/seed/%s/notes.md' % prop
+    p = '/tmp/seed2/%s/notes.md' % prop
     if not os.path.exists(p):
         return None
     txt = open(p).read()
